@@ -447,10 +447,18 @@ class World:
                 if tx.txid not in gone and any(p[0] in gone for p in tx.ins if p != GEN_PREV):
                     gone.add(tx.txid)
                     changed = True
+        self.last_evicted = [tx for tx in self.mempool.values() if tx.txid in gone]
         for t in gone:
             del self.mempool[t]
         self.version += 1
         return list(gone)
+
+    def mp_restore(self, txs):
+        '''Transactions that had left the mempool are broadcast again (those still valid).'''
+        pool = list(self.mempool.values()) + [t for t in txs if t.txid not in self.mempool]
+        self.mempool = {}
+        self._readmit(pool, self._chain_txids(self.best))
+        self.version += 1
 
 
 # ---------------------------------------------------------------------------------------------
